@@ -298,11 +298,15 @@ struct Session {
 }
 
 fn observes_present(kind: &str) -> bool {
-	kind != "listener"
+	// (beneath a paused parent nothing is processed: such sessions are observed through counts, results and drops only)
+	kind != "listener" && !kind.ends_with("_p")
 }
 
 impl Session {
 	fn new(kind: &str, n: usize) -> Session {
+		// "tsound_p" / "nested_p": as "tsound" / "nested", with the parent track paused before the history begins
+		let orig = kind;
+		let kind = orig.trim_end_matches("_p");
 		let kind_s = kind.to_string();
 		let log: Log = Default::default();
 		let handles: Handles = Default::default();
@@ -377,7 +381,7 @@ impl Session {
 			audio_started: false,
 			a_pending: false,
 			cur_item: 0,
-			observes_present: observes_present(kind),
+			observes_present: observes_present(orig),
 		};
 		// warm-up callback: the watcher (and the parent track) are picked up
 		let _ = s.aw.call(|r| {
@@ -562,7 +566,24 @@ pub fn run_scenario(sc: &Value, t: &mut Tracer) {
 	let racy = sc["racy"].as_bool().unwrap_or(false);
 	t.reset(json!({"kind": kind, "n": n, "racy": racy, "pk": observes_present(kind), "src": sc["src"]}));
 	let mut s = Session::new(kind, n);
-	let tag = kind_tag(kind);
+	if kind.ends_with("_p") {
+		let _ = s.gw.call(|w| {
+			let zero = kira::Tween { start_time: kira::StartTime::Immediate, duration: std::time::Duration::ZERO, easing: kira::Easing::Linear };
+			w.parent.as_mut().unwrap().pause(zero);
+			Value::Null
+		});
+		for _ in 0..2 {
+			let _ = s.aw.call(cb_job);
+		}
+		{
+			let mut l = s.log.lock().unwrap();
+			l.processed.clear();
+			l.resolved.clear();
+		}
+		let paused = s.gw.call(|w| json!(format!("{:?}", w.parent.as_ref().unwrap().state())));
+		t.ev(json!({"a": "tau", "parent": match paused { Status::Done(v) => v, _ => json!("?") }}));
+	}
+	let tag = kind_tag(kind.trim_end_matches("_p"));
 	s.gw.ctl.set_tag(tag);
 	s.aw.ctl.set_tag(tag);
 	let mut drift = 0u64;
